@@ -313,6 +313,25 @@ def run_relhost(case):
                             n += 1
                             if got != want2:
                                 fails.append(Fail('relative-host', got=got, exp=want2, text=text, host='R%dC%d' % (hr, hc), spelling=label, feat='round%d' % rounds))
+    # third entry point: cells built one after the other with ONE context mapping, as a sheet loader does
+    from formulas.cell import Cell
+    for shared in ({'sheet': sheet, 'filename': 'b.xlsx', 'directory': ''}, {'sheet': sheet}):
+        for rounds in range(2):
+            for (hr, hc) in (hosts if rounds == 0 else hosts[::-1]):
+                for dr, dc in ((-2, -1), (1, 2), (3, -2)):
+                    r, c = hr + dr, hc + dc
+                    if not (1 <= r <= MAXR and 1 <= c <= MAXC):
+                        continue
+                    text = '=R[%d]C[%d]+1' % (dr, dc)
+                    n += 1
+                    try:
+                        cell = Cell('%s%d' % (R.col(hc), hr), text, context=shared).compile()
+                        got = sorted(cell.inputs)
+                    except Exception as e:
+                        got = type(e).__name__
+                    want = [("'[b.xlsx]%s'!%s%d" if 'filename' in shared else '%s!%s%d') % (sheet.upper(), R.col(c), r)]
+                    if got != want:
+                        fails.append(Fail('relative-host', got=got, exp=want, text=text, host='R%dC%d' % (hr, hc), spelling='Cell+shared-context', feat='round%d' % rounds))
     return result(n, ['relhost'], fails[:40])
 
 
